@@ -189,7 +189,8 @@ class Inliner:
             # a private method of the same class, called on self
             name = call.func.attr
             m = self.index.method(self.func.cls, name)
-            if m is None or m.node.decorator_list or not name.startswith('_') or \
+            if m is None or m.node.decorator_list or \
+                    not (name.startswith('_') or name in self.cross) or \
                     name.startswith('__') or name == self.func.name or name in self.exclude:
                 return None
             if any(sub.methods.get(name) is not None
